@@ -13,6 +13,10 @@ accepted for all branch conditions / loop counts / contents in Bridge.v - an in-
 caller's object or a write to the estimator in transform breaks a proof obligation; (b) the
 `Parallel(...)` call-site facts of the anchored files (translator/sites_c12.py), proved to satisfy
 the contract's preconditions (Bridge.v).
+(c) the cutoff discipline of `predict` of 13 forecasters (translator/cutoff_c12.py -> C12/Cutoff.v:
+the code reachable from predict by virtual dispatch through the package, reduced to assignments of
+the cutoff, `with self._detached_cutoff()` regions, control flow), proved guarded in BridgeCutoff.v:
+predict leaves the cutoff where it was on every path.
 What is only sampled: real thread interleavings, pickle, BLAS - by the scenario run below, whose
 verdict is the oracle (the Coq side of an estimator case is the regenerated program's prediction:
 caller buffers unchanged, result a new object, parameters unchanged).
@@ -20,13 +24,13 @@ caller buffers unchanged, result a new object, parameters unchanged).
 import hashlib
 import struct
 
-from harness.core import cbool, clist, cz, czlist
+from harness.core import cbool, clist, cstr, cz, czlist
 
 ID = "C12"
 MODEL_TARGETS = ["C12/Cases.vo"]
-PROOF_TARGETS = ["C12/Own.vo", "C12/Proofs.vo", "C12/BridgeOwn.vo", "C12/Sites.vo", "C12/Bridge.vo",
-                 "C12/Refuted.vo"]
-OBLIGATION_FILES = ["C12/BridgeOwn.v", "C12/Bridge.v", "C12/Refuted.v"]
+PROOF_TARGETS = ["C12/Own.vo", "C12/Cutoff.vo", "C12/Proofs.vo", "C12/BridgeOwn.vo", "C12/BridgeCutoff.vo",
+                 "C12/Sites.vo", "C12/Bridge.vo", "C12/Refuted.vo"]
+OBLIGATION_FILES = ["C12/BridgeOwn.v", "C12/BridgeCutoff.v", "C12/Bridge.v", "C12/Refuted.v"]
 PROPS_FILE = "C12/Props.v"
 SHARD = 60
 PER_CASE_TIMEOUT = 150
@@ -55,6 +59,11 @@ TRUSTED = [
     "x; calls of functions outside the module (other estimators' fit/predict, numpy) do not write "
     "through their arguments (for estimators that is this property, sampled on them separately); "
     "`raise` is modelled as carrying on (the model may only do more than the code)",
+    "translator/cutoff_c12.py (Python ast -> cutoff skeleton of predict, fail closed): follows "
+    "methods and properties of self by virtual dispatch over the C3 linearisation computed from the "
+    "package's sources; trusted: methods of self found nowhere in the package (sklearn's get_params "
+    "...) and functions in SELF_ARG_OK do not assign the cutoff; other objects' cutoffs are their own "
+    "entries; break / continue ignored, a local function's body is counted where it is defined",
     "digest comparison of results (sha1 of a canonical bit-exact snapshot, NaN canonicalised)",
 ]
 MODELLED = [
@@ -117,6 +126,8 @@ def translate(repo):
     out = dict(sites_c12.translate(repo))
     _OWN.pop("ms", None)
     out.update(own_c12.translate(repo))      # raises Unsupported on any shape it does not know
+    from translator import cutoff_c12
+    out.update(cutoff_c12.translate(repo))
     _own_meta(repo)
     return out
 
@@ -741,6 +752,14 @@ def _fit(est, fit_args):
         return "%s: %s" % (type(e).__name__, str(e)[:80])
 
 
+def _cutoff_repr(est):
+    """the forecaster's cutoff (None for estimators without one)"""
+    try:
+        return repr(getattr(est, "_cutoff", None))
+    except Exception:  # noqa
+        return "?"
+
+
 def _qual(est, method):
     """which function runs for est.<method>: `Class.method` of the defining class"""
     f = getattr(type(est), method, None)
@@ -793,6 +812,7 @@ def _run_est(case):
     np.random.seed(1234)
     e1 = make(name, seed)
     out["params"] = _plain_params(e1)
+    out["cls"] = type(e1).__name__
     fit_before = _arg_snaps(fit_args)
     err = _fit(e1, fit_args)
     out["fit"] = {"err": err, "mod": _arg_diff(fit_args, fit_before)}
@@ -809,7 +829,9 @@ def _run_est(case):
         before = _arg_snaps(args)
         pristine.append(before)
         p0, r0, a0 = params_digest(e1), rng_digest(e1), attr_digests(e1)
+        c0 = _cutoff_repr(e1)
         res, s = _invoke(e1, method, args)
+        c1 = _cutoff_repr(e1)
         quals.append(_qual(e1, method))
         res_is_arg.append(bool(args) and res is not None and res is args[0][1])
         if ci == 0 and res is not None and hasattr(res, "copy"):
@@ -819,6 +841,7 @@ def _run_est(case):
                "kind": s.get("t"), "mod": _arg_diff(args, before),
                "params_changed": params_digest(e1) != p0, "rng_consumed": rng_digest(e1) != r0,
                "scratch": sorted(k for k in set(a0) | set(a1) if a0.get(k) != a1.get(k)),
+               "cutoff": None if c0 == c1 else "%s -> %s" % (c0, c1),
                "same": {}, "diffs": {}}
         rec["_snap"] = s
         recs.append(rec)
@@ -1069,6 +1092,10 @@ def oracle(case, out):
     for c in out["calls"]:
         if c["mod"]:
             return "apply-modified-caller-data: %s.%s %s" % (name, c["label"], c["mod"])
+    for c in out["calls"]:
+        if c.get("cutoff"):
+            return "apply-moved-cutoff: %s.%s left the forecaster's cutoff changed: %s" % (
+                name, c["label"], c["cutoff"])
     for tag, clause in (("repeat", "repeat-apply-differs"),
                         ("interleaved", "interleaved-apply-differs"),
                         ("fit-twice", "fit-twice-differs"),
@@ -1264,7 +1291,7 @@ def distribution(cases, results):
 # ------------------------------------------------------------------------------------------------
 # model side
 
-CASES_HEADER = """From Coq Require Import ZArith List Bool.
+CASES_HEADER = """From Coq Require Import ZArith List Bool String.
 Require Import SkV.C12.Model SkV.C12.Cases.
 Import ListNotations.
 Open Scope Z_scope.
@@ -1324,7 +1351,10 @@ def coq_case(case, out):
                 _mref(q, i == 0, out.get("params", {}), frame), _cstore(b), _cstore(a),
                 cbool(ria), cbool(changed[i])))
         pc = any(c["params_changed"] for c in out["calls"])
-        return "CEst %s %s" % (clist(calls), cbool(pc))
+        moved = [bool(c.get("cutoff")) for c in out["calls"]
+                 if c["label"].startswith("predict")]
+        return "CEst %s %s %s %s" % (clist(calls), cbool(pc), cstr(out.get("cls", "")) + "%string",
+                                     clist([cbool(x) for x in moved]))
     if k == "pool":
         return "CPool %s %s %s %s %s" % (cz(case["a"]), cz(case["b"]), czlist(case["tags"]),
                                         _cnatlist(out["finish_order"]), czlist(out["collected"]))
